@@ -385,6 +385,48 @@ func init() {
 func init() { scenarios["c11-saturated-pool-topups"] = scenarios["c09-saturated-pool-topups"] }
 
 func init() {
+	// C09 (custody backed): a perpetual pool with a large long custody in ATOM and short positions that owe ATOM. The amm prices on
+	// holdings + liabilities − custody, so two exact-out requests of (free holdings)/2 + liabilities/4 ATOM are both affordable by
+	// price; sent in ONE block they are executed one after the other at its end, and the second would leave the pool holding less
+	// than the custody: the perpetual hook refuses it AFTER the swap has been applied — it has to be undone as a whole.
+	scenarios["c09-swaps-of-one-block-against-custody"] = func(sc *Scn) {
+		w := sc.w
+		p := sc.std.Pools[2] // the deep oracle pool: 1,000,000 USDC : 200,000 ATOM
+		price := sc.std.Prices["ATOM"]
+		sc.Tx("perp.open", w.Accts[1], J{"pool": p.Id, "long": true, "collateral": []string{"uatom", "80000000000"}, "leverage": "1.5"},
+			&perptypes.MsgOpen{Creator: w.Accts[1].Addr.String(), Position: perptypes.Position_LONG, Leverage: D("1.5"), TradingAsset: "uatom",
+				Collateral: coin("uatom", math.NewInt(80_000_000_000)), TakeProfitPrice: price.Mul(D("3")), StopLossPrice: D("0"), PoolId: p.Id})
+		sc.Tx("perp.open", w.Accts[2], J{"pool": p.Id, "long": false, "collateral": []string{sc.std.USDC, "132000000000"}, "leverage": "1.5"},
+			&perptypes.MsgOpen{Creator: w.Accts[2].Addr.String(), Position: perptypes.Position_SHORT, Leverage: D("1.5"), TradingAsset: "uatom",
+				Collateral: coin(sc.std.USDC, math.NewInt(132_000_000_000)), TakeProfitPrice: price.Mul(D("0.5")), StopLossPrice: D("0"), PoolId: p.Id})
+		for round := 0; round < 3; round++ {
+			ctx := w.Ctx()
+			pool, ok1 := w.App.AmmKeeper.GetPool(ctx, p.Id)
+			pp, ok2 := w.App.PerpetualKeeper.GetPool(ctx, p.Id)
+			if !ok1 || !ok2 {
+				return
+			}
+			bal, err := pool.GetAmmPoolBalance("uatom")
+			if err != nil {
+				return
+			}
+			liab, custody, _, _ := pp.GetPerpetualPoolBalances("uatom")
+			free := bal.Sub(custody)
+			if !free.IsPositive() {
+				return
+			}
+			a := free.QuoRaw(2).Add(liab.QuoRaw(4)).AddRaw(int64(round))
+			u := w.Accts[3]
+			mk := func() sdk.Msg {
+				return &ammtypes.MsgSwapExactAmountOut{Sender: u.Addr.String(), Routes: []ammtypes.SwapAmountOutRoute{{PoolId: p.Id, TokenInDenom: sc.std.USDC}},
+					TokenOut: coin("uatom", a), TokenInMaxAmount: math.NewInt(900_000_000_000_000), Recipient: u.Addr.String()}
+			}
+			sc.Tx("amm.swapOut", u, J{"pool": p.Id, "out": []string{"uatom", a.String()}, "hops": 1, "recipient": u.Addr.String(), "pair": true}, mk(), mk())
+		}
+	}
+}
+
+func init() {
 	// C18: liquidity mining in Eden is on (inflation configured, Eden rewards enabled on the pools) and the liquidity providers of
 	// one pool leave until only dust is left: the pool's Eden allocation per block falls between 0 and 1 base unit.
 	scenarios["c18-eden-rewards-dust-pool"] = func(sc *Scn) {
